@@ -48,19 +48,57 @@ void *vp_old_ptr(const void *cur_ptr); /* address inside a registered block -> s
 #define VP_REGISTER(hdr, blk, nbytes) vp_register(hdr, blk, nbytes)
 #define VP_R_OK(p, n) 1
 #define VP_RW_OK(p, n) 1
+#define VP_CANARY() ((void)0)
 #else
 #define VP_IN(T, name) T name
 #define VP_IN_ARR(T, name, n) T name[n] __attribute__((aligned(64)))
 #define VP_ASSUME(c) __CPROVER_assume(c)
 #define VP_ASSERT(c, msg) __CPROVER_assert(c, msg)
 #define VP_COVER(c) __CPROVER_cover(c)
+#define VP_R_OK(p, n) __CPROVER_r_ok(p, n)
+#define VP_RW_OK(p, n) __CPROVER_rw_ok(p, n)
+#ifdef VP_ASSERT_MODE
+/* CBMC without contract instrumentation: the same REQ_/ENS_ text is assumed before / asserted after the call
+ * by the harness; "old" values come from shadow copies of the registered blocks (see vp_spec.h) */
+#include <stdlib.h>
+#include <string.h>
+#define VP_NREG 6
+static void *vp_reg_hdr[VP_NREG];
+static char *vp_reg_blk[VP_NREG];
+static size_t vp_reg_n[VP_NREG];
+static char *vp_reg_old[VP_NREG];
+static int vp_reg_cnt;
+static inline void vp_register(void *hdr, void *blk, size_t nbytes) {
+  vp_reg_hdr[vp_reg_cnt] = hdr;
+  vp_reg_blk[vp_reg_cnt] = (char *)blk;
+  vp_reg_n[vp_reg_cnt]   = nbytes;
+  vp_reg_cnt++;
+}
+static inline void vp_snapshot_all(void) {
+  for (int k = 0; k < vp_reg_cnt; ++k) {
+    vp_reg_old[k] = malloc(vp_reg_n[k]);
+    __CPROVER_assume(vp_reg_old[k] != NULL);
+    memcpy(vp_reg_old[k], vp_reg_blk[k], vp_reg_n[k]);
+  }
+}
+#define VP_PRE(c) __CPROVER_assume(c)
+#define VP_SNAPSHOT() vp_snapshot_all()
+#define VP_POST(c) __CPROVER_assert(c, "contract clause: " #c)
+#define VP_REGISTER(hdr, blk, nbytes) vp_register(hdr, blk, nbytes)
+#else
 #define VP_OLD(e) __CPROVER_old(e)
 #define VP_PRE(c) ((void)0)
 #define VP_SNAPSHOT() ((void)0)
 #define VP_POST(c) ((void)0)
 #define VP_REGISTER(hdr, blk, nbytes) ((void)0)
-#define VP_R_OK(p, n) __CPROVER_r_ok(p, n)
-#define VP_RW_OK(p, n) __CPROVER_rw_ok(p, n)
+#endif
+/* vacuity guard: compiled with -DVP_CANARY this assertion placed after the call MUST fail (the call is
+ * reachable under the pre-condition and returns); the driver treats a passing canary as a broken check */
+#ifdef VP_CANARY
+#define VP_CANARY() __CPROVER_assert(0, "canary: call returns under the pre-condition")
+#else
+#define VP_CANARY() ((void)0)
+#endif
 #endif
 
 #define VP_IMP(a, b) (!(a) || (b))
